@@ -103,7 +103,9 @@ def generate(rng, tier, focus):
             ops.append({"op": rng.choice(["len", "natoms", "box", "title", "full_iter"])})
     if not any(o["op"] == "full_iter" for o in ops) and rng.random() < 0.5:
         ops.append({"op": "full_iter"})
-    return {"text": text, "ops": ops, "open_file": rng.random() < 0.2}
+    return {"text": text, "ops": ops, "open_file": rng.random() < 0.2,
+            "crlf": rng.random() < 0.12,            # DOS line ends (a file that went through another system)
+            "rewritten_path": rng.random() < 0.15}   # the path held another file of the same atom count before
 
 
 def abbreviate(trace):
@@ -156,8 +158,32 @@ def execute(trace, ctx):
     n = len(expected)
     d = ctx.tmpdir()
     path = os.path.join(d, "sys.gro")
-    with open(path, "w") as f:
-        f.write(text)
+    if trace.get("rewritten_path"):
+        # the same path first holds ANOTHER system with the same number of atoms and another residue partition; it is
+        # loaded and read, then the file is replaced
+        lines0 = text.split("\n")
+        n_at = int(lines0[1])
+        other = list(lines0)
+        for k in range(n_at):
+            l = lines0[2 + k]
+            other[2 + k] = "%5d%-5s" % (1 + k // 2, "OTH") + l[10:]
+        try:
+            with open(path, "w") as f:
+                f.write("\n".join(other))
+            old = SystemGro(path)
+            _ = len(old), [r for r in old][:3]
+            del old
+        except Exception as e:
+            ctx.violate(P, "load-raised", f"loading the earlier occupant of the path raised {type(e).__name__}: {e}")
+            return
+        ctx.probe("path_held_another_file_before")
+    if trace.get("crlf"):
+        with open(path, "w", newline="") as f:
+            f.write(text.replace("\n", "\r\n"))
+        ctx.probe("dos_line_ends")
+    else:
+        with open(path, "w") as f:
+            f.write(text)
     try:
         if trace.get("open_file"):
             fh = open(path)                     # "Gromacs file path or open file"
